@@ -8,7 +8,7 @@ from . import _w5ts as W
 
 ID = 'C03'
 TITLE = 'alignment puts all timeseries on the prescribed common index, values intact'
-LEAN_FILES = ['Basic', 'TSBasic', 'Fill', 'FillDriver', 'Align', 'AlignDriver', 'FillLemmas', 'FillIndep', 'AlignLemmas', 'C03']
+LEAN_FILES = ['Basic', 'TSBasic', 'Fill', 'FillDriver', 'Align', 'AlignDriver', 'FillLemmas', 'FillIndep', 'AlignLemmas', 'AlignAsOf', 'AlignTree', 'C03']
 RULE = ('distinct protocol lines (container, join policy, fill method, column policy) on which the implementation returned a value '
         'and the container holds at least two timeseries / arrays with different indices / lengths')
 TRUSTED = ['correspondence harness (pv.engine, pv.proto, pv.props._w5ts) and generators of pv.props.c03',
@@ -16,7 +16,7 @@ TRUSTED = ['correspondence harness (pv.engine, pv.proto, pv.props._w5ts) and gen
 ASSUMPTIONS = ['pandas: Index.intersection/union of sorted DatetimeIndexes are the sorted set operations; reindex(index) is a lookup; '
                'reindex(index, method=ffill|bfill) of a NaN-free sorted object is the as-of / next-observation lookup (reference functions of PygModel/Align.lean, sampled)',
                'indices are sorted and duplicate-free; explicit indices likewise; limit=None; method lists, numeric / other fill methods go through the C12 model and are not generated here',
-               'nested tuples are not generated (_list does not descend into tuples - outside the statement, which speaks of nested lists/dicts); dict keys never equal "index"',
+               'nested tuples (_list does not descend into them: members reindexed, not counted for the joint index) are outside the statement (nested lists/dicts) and generated only lightly, against the model; dict keys never equal "index"',
                'the ORDER of the columns after column alignment is not compared (a set in the statement); 2-d arrays and arrays mixed with pandas objects (ValueError) are sampled only lightly',
                'float values are exact multiples of 1/4']
 S = 4
@@ -67,6 +67,24 @@ def dec_tree(sx):
 
 def dec_method(a):
     return None if a == 'N' else a
+
+
+def enc_join(days, spelling='X'):
+    return '(%s%s)' % (spelling, ''.join(' ' + W.enc_t(W.day(d)) for d in days))
+
+
+def dec_join(a):
+    """a policy word, or an explicit index in one of its three spellings: pd.Index / a timeseries carrying it / dict(index=...)"""
+    if not isinstance(a, list):
+        return a
+    if a[0] == 'N':
+        return int(a[1][2:])
+    idx = pd.DatetimeIndex([W.dec_t(x) for x in a[1:]])
+    if a[0] == 'XS':
+        return pd.Series(np.arange(len(idx), dtype=float), idx)
+    if a[0] == 'XD':
+        return dict(index=idx)
+    return idx
 
 
 # ------------------------------------------------------------------ generators
@@ -133,6 +151,11 @@ def wrap(rng, members, shape):
         inner = inner if rng.random() < 0.5 else {k: v for k, v in zip('xyzw', inner)}
         rest = items[cut:]
         return [inner] + rest if rng.random() < 0.5 else {'n': inner, **{k: v for k, v in zip('pqrs', rest)}}
+    if shape == 'nested-tuple':
+        # a tuple BELOW the top level: `_list` does not open it, so its members are reindexed but do not contribute to the joint
+        # index (outside the statement, which speaks of nested lists / dicts; the model follows the code here)
+        cut = rng.randint(1, max(1, len(items) - 1))
+        return [tuple(items[:cut])] + items[cut:]
     # nested3
     a, b = items[:1], items[1:]
     cut = rng.randint(0, len(b))
@@ -144,18 +167,26 @@ def generate(rng, tier):
     for _ in range(n):
         with_frames = rng.random() < 0.35
         members, rel = rand_members(rng, with_frames)
-        shape = rng.choice(['flat-list', 'flat-list', 'flat-list-pure', 'flat-tuple', 'flat-dict', 'nested2', 'nested2', 'nested3'])
+        shape = rng.choice(['flat-list', 'flat-list', 'flat-list-pure', 'flat-tuple', 'flat-dict', 'nested2', 'nested2', 'nested3'] * 3 + ['nested-tuple'])
         tree = wrap(rng, members, shape)
         how, m = rng.choice(HOWS), rng.choice(METHODS)
         r = rng.random()
-        if r < 0.55:
+        if r < 0.48:
             ch = rng.choice(['ij', 'oj', 'lj', 'rj', 'N']) if with_frames else rng.choice(['ij', 'N'])
             yield dict(tag='sync/%s/%s/%s/%s%s' % (shape, rel, how, m, '/cols-' + ch if with_frames else ''),
                        lines=['(align sync %s %s %s %s)' % (enc_tree(tree), how, m, ch)])
+        elif r < 0.55:
+            # df_sync with an EXPLICIT index as join policy
+            ch = rng.choice(['ij', 'oj', 'N']) if with_frames else 'ij'
+            sp = rng.choice(['X', 'X', 'XS', 'XD'])
+            days = rand_days(rng, rng.choice(['overlap', 'empty', 'overlap', 'nested']), [d_.day - 1 for d_ in members[0].index])
+            yield dict(tag='sync-explicit/%s/%s/%s' % (shape, sp, m),
+                       lines=['(align sync %s %s %s %s)' % (enc_tree(tree), enc_join(days, sp), m, ch)])
         elif r < 0.70:
             days = rand_days(rng, rng.choice(['overlap', 'empty', 'overlap']), [])
-            yield dict(tag='reindex-explicit/%s/%s' % (shape, m),
-                       lines=['(align reindex %s (X%s) %s)' % (enc_tree(tree), ''.join(' ' + W.enc_t(W.day(d)) for d in days), m)])
+            sp = rng.choice(['X', 'X', 'XS', 'XD'])
+            yield dict(tag='reindex-explicit/%s/%s/%s' % (shape, sp, m),
+                       lines=['(align reindex %s %s %s)' % (enc_tree(tree), enc_join(days, sp), m)])
         elif r < 0.80:
             if isinstance(tree, tuple):
                 tree = list(tree)   # df_index does not open a tuple (only df_sync / presync open their top-level container)
@@ -170,6 +201,10 @@ def generate(rng, tier):
             if rng.random() < 0.3:
                 args[0] = [args[0], rand_series(rng, rand_days(rng, 'overlap', []), 0.3)]
             yield dict(tag='presync/%d/%s/%s' % (k, how, m), lines=['(align presync %s %s %s)' % (enc_tree(tuple(args)), how, m)])
+    # presync(f)(*args, columns=False, **kwargs): Series, one- and multi-column frames, scalars, nested lists / dicts, keywords
+    for _ in range(150 if tier == 'quick' else 4000):
+        case = gen_presynck(rng)
+        yield case
     # bare numpy arrays of different lengths (aligned at the end)
     n = 250 if tier == 'quick' else 6000
     for _ in range(n):
@@ -183,12 +218,43 @@ def generate(rng, tier):
         shape = rng.choice(['list', 'list', 'dict', 'nested'])
         tree = items if shape == 'list' else {k_: v for k_, v in zip('pqrstu', items)} if shape == 'dict' else [items[:1], items[1:]]
         how, m = rng.choice(HOWS), rng.choice(METHODS)
+        if rng.random() < 0.15:
+            # an explicit common length: df_reindex(arrays, n)
+            yield dict(tag='arrays-explicit-len/%s/%s' % (shape, m), lines=['(align reindex %s (N I:%d) %s)' % (enc_tree(tree), rng.choice([0, 1, 2, 3, 5, 7]), m)])
+            continue
         yield dict(tag='arrays/%s/%s/%s' % (shape, how, m), lines=['(align sync %s %s %s ij)' % (enc_tree(tree), how, m)])
     # arrays mixed with timeseries: the code raises unless the lengths happen to fit
     for _ in range(20 if tier == 'quick' else 300):
         s = rand_series(rng, rand_days(rng, 'overlap', []), 0.2)
         a = np.array([rng.choice(VALS) for _ in range(rng.choice([0, 1, len(s), len(s), 3]))], dtype=float)
         yield dict(tag='mixed-array-ts', lines=['(align sync %s %s N ij)' % (enc_tree([s, a]), rng.choice(HOWS))])
+
+
+def gen_presynck(rng):
+    members, rel = rand_members(rng, rng.random() < 0.6)
+    if rng.random() < 0.12:
+        members = [np.array([nan if rng.random() < 0.25 else rng.choice(VALS) for _ in range(rng.choice([0, 1, 2, 3, 5]))], dtype=float) for _ in members]
+        rel = 'arrays'
+    items = list(members) + [rng.choice(SCALARS) for _ in range(rng.choice([0, 1, 1]))]
+    rng.shuffle(items)
+    nk = rng.choice([0, 0, 1, 1, 2])
+    nk = min(nk, len(items) - 1)
+    pos, kw = items[:len(items) - nk], items[len(items) - nk:]
+    if pos and rng.random() < 0.3:
+        pos[0] = [pos[0], rng.choice(SCALARS)] if rng.random() < 0.5 else {'u': pos[0]}
+    kwargs = {k: v for k, v in zip(rng.sample(['k', 'z', 'w', 'a'], len(kw)), kw)}
+    if kwargs and rng.random() < 0.3:
+        k0 = next(iter(kwargs))
+        kwargs[k0] = [kwargs[k0], rand_series(rng, rand_days(rng, 'overlap', []), 0.3)]
+    m = rng.choice(METHODS)
+    if rel != 'arrays' and rng.random() < 0.25:   # an explicit DatetimeIndex for bare arrays alone is meaningless (the code raises assorted errors): not generated
+        sp = rng.choice(['X', 'XS', 'XD'])
+        join = enc_join(rand_days(rng, rng.choice(['overlap', 'empty', 'overlap']), []), sp)
+        jt = 'explicit-' + sp
+    else:
+        join = jt = rng.choice(HOWS)
+    return dict(tag='presynck/%s/%d+%d/%s/%s' % (rel, len(pos), len(kwargs), jt, m),
+                lines=['(align presynck %s %s %s %s)' % (enc_tree(tuple(pos)), enc_tree(kwargs), join, m)])
 
 
 # ------------------------------------------------------------------ implementation runner
@@ -199,6 +265,10 @@ def _f2(a, b):
 
 def _f3(a, b, c):
     return (a, b, c)
+
+
+def _fv(*args, **kwargs):
+    return (args, kwargs)
 
 
 def snapshot_tree(x):
@@ -242,13 +312,20 @@ def run_line(state, sx):
     before = snapshot_tree(tree)
     if op == 'sync':
         ch = None if args[3] == 'N' else args[3]
-        res = pyg_base.df_sync(tree, args[1], dec_method(args[2]), ch)
+        res = pyg_base.df_sync(tree, dec_join(args[1]), dec_method(args[2]), ch)
     elif op == 'reindex':
-        if isinstance(args[1], list):
-            index = pd.DatetimeIndex([W.dec_t(a) for a in args[1][1:]])
-        else:
-            index = args[1]
-        res = pyg_base.df_reindex(tree, index, dec_method(args[2]))
+        res = pyg_base.df_reindex(tree, dec_join(args[1]), dec_method(args[2]))
+    elif op == 'presynck':
+        kw = dec_tree(args[1])
+        if not isinstance(tree, tuple) or not isinstance(kw, dict):
+            return 'bad-op'
+        before_kw = snapshot_tree(kw)
+        res = pyg_base.presync(_fv)(*tree, join=dec_join(args[2]), method=dec_method(args[3]), columns=False, **kw)
+        if not same_tree(tree, before) or not same_tree(kw, before_kw):
+            return 'violation input-modified'
+        if not (isinstance(res, tuple) and len(res) == 2 and passthrough_ok(tree, res[0]) and passthrough_ok(kw, res[1])):
+            return 'violation structure-or-passthrough %s' % enc_tree(res)
+        return 'ok ' + enc_tree(res)
     elif op == 'index':
         ix = pyg_base.df_index(tree, args[1])
         if ix is None:
@@ -270,9 +347,38 @@ def run_line(state, sx):
     return 'ok ' + enc_tree(res)
 
 
+def _canon_ordered(x):
+    if isinstance(x, str):
+        return proto.canon_cell(x, True)
+    return (x[0],) + tuple(_canon_ordered(y) for y in x[1:])
+
+
+def _recolumns(line):
+    """does the line ask for column alignment of a frame with several columns? (then the ORDER of the columns is pandas' business)"""
+    sx = proto.parse(line)
+    if sx[1] != 'sync' or sx[-1] == 'N':
+        return False
+    def multi(t):
+        if isinstance(t, str):
+            return False
+        if t and t[0] == 'df':
+            return len(t[1][2]) - 1 > 1
+        return any(multi(y) for y in t[1:])
+    return multi(sx[2])
+
+
 def compare(case, i, line, ir, mr):
-    if proto.same_reply(ir, mr) or ir == 'bad-op':
+    if proto.same_reply(ir, mr):
+        # `same_reply` sorts dict entries; where no column alignment takes place the ORDER of dict keys and of frame columns is part
+        # of "container structure preserved / values intact" and both sides keep it: compare it too
+        if ir != mr and ir.startswith('ok ') and not _recolumns(line):
+            a, b = proto.parse(ir.split(None, 1)[1]), proto.parse(mr.split(None, 1)[1])
+            if _canon_ordered(a) != _canon_ordered(b):
+                return 'order of dict keys / frame columns changed: implementation %s, model %s' % (ir, mr)
         return None
+    if ir == 'bad-op':
+        # the runner refuses a line (a shrunk presync call that is no call any more): fine only if the model refuses it too
+        return None if mr == 'bad-op' else ('divergence', 'the runner refuses the line, the model answers %s' % mr)
     if ir.startswith('violation'):
         return ir
     return 'implementation %s, model %s' % (ir, mr)
@@ -344,6 +450,33 @@ def same_vals(a, b):
     return len(a) == len(b) and all((_isnan(x) and _isnan(y)) or x == y for x, y in zip(a, b))
 
 
+def check_members(ins, outs, want, m, cs):
+    """the statement on every timeseries member: on the common index `want`, own value / NaN or (per column) the last / next
+    non-NaN observation; multi-column frames on the column set `cs` (None: columns untouched), a column the frame lacked NaN"""
+    for a, b in zip(ins, outs):
+        if not isinstance(a, (pd.Series, pd.DataFrame)):
+            continue
+        if list(b.index) != want:
+            return 'a member is not on the common index: %s instead of %s' % ([t.day for t in b.index], [t.day for t in want])
+        if isinstance(a, pd.Series):
+            if not same_vals(list(map(float, b.values)), expected_series(a, want, dec_method(m))):
+                return 'series values: got %s, the statement gives %s' % (list(b.values), expected_series(a, want, dec_method(m)))
+        else:
+            if a.shape[1] > 1 and cs is not None and set(b.columns) != cs:
+                return 'columns %s instead of %s' % (list(b.columns), sorted(cs))
+            if (a.shape[1] <= 1 or cs is None) and list(b.columns) != list(a.columns):
+                return 'columns of a frame that needs no column alignment changed: %s -> %s' % (list(a.columns), list(b.columns))
+            for c in b.columns:
+                if c in a.columns:
+                    # the statement, column by column: own value / NaN, or the column's last / next non-NaN observation
+                    exp = expected_series(a[c], want, dec_method(m))
+                    if not same_vals(list(map(float, b[c].values)), exp):
+                        return 'frame column %s values: got %s, the statement gives %s' % (c, list(b[c].values), exp)
+                elif not all(_isnan(float(v)) for v in b[c].values):
+                    return 'a column the frame lacked is not NaN'
+    return None
+
+
 def laws(rng, tier, ctx):
     import pyg_base
     count = 0
@@ -375,31 +508,60 @@ def laws(rng, tier, ctx):
                 cs = set().union(*map(set, multi))
             else:
                 cs = set(multi[0] if ch == 'lj' else multi[-1])
-        bad = None
-        for a, b in zip(ins, outs):
-            if not isinstance(a, (pd.Series, pd.DataFrame)):
-                continue
-            if list(b.index) != want:
-                bad = 'a member is not on the common index: %s instead of %s' % ([t.day for t in b.index], [t.day for t in want])
-                break
-            if isinstance(a, pd.Series):
-                if not same_vals(list(map(float, b.values)), expected_series(a, want, dec_method(m))):
-                    bad = 'series values: got %s, the statement gives %s' % (list(b.values), expected_series(a, want, dec_method(m)))
-                    break
+        bad = check_members(ins, outs, want, m, cs if multi else None)
+        if bad:
+            yield Finding('violation', case, bad)
+    # an explicit index as join policy (df_sync, df_reindex) and the arguments a presync-decorated function receives (keywords too)
+    for _ in range(n // 2):
+        members, rel = rand_members(rng, rng.random() < 0.4)
+        m = rng.choice(METHODS)
+        kind = rng.choice(['sync-explicit', 'reindex-explicit', 'presync', 'presync'])
+        if kind != 'presync':
+            tree = wrap(rng, members, rng.choice(['flat-list', 'flat-dict', 'nested2', 'nested3']))
+            sp = rng.choice(['X', 'XS', 'XD'])
+            days = rand_days(rng, rng.choice(['overlap', 'empty', 'overlap']), [])
+            j = enc_join(days, sp)
+            want = [pd.Timestamp(W.day(d)) for d in days]
+            if kind == 'sync-explicit':
+                case = dict(tag='law-sync-explicit', lines=['(align sync %s %s %s N)' % (enc_tree(tree), j, m)])
+                call = lambda: pyg_base.df_sync(tree, dec_join(proto.parse(j)), dec_method(m), None)
             else:
-                if a.shape[1] > 1 and set(b.columns) != cs:
-                    bad = 'columns %s instead of %s' % (list(b.columns), sorted(cs))
-                    break
-                for c in b.columns:
-                    if c in a.columns and m == 'N':
-                        if not same_vals(list(map(float, b[c].values)), expected_series(a[c], want, None)):
-                            bad = 'frame column %s values changed' % c
-                            break
-                    elif c not in a.columns and not all(_isnan(float(v)) for v in b[c].values):
-                        bad = 'a column the frame lacked is not NaN'
-                        break
-                if bad:
-                    break
+                case = dict(tag='law-reindex-explicit', lines=['(align reindex %s %s %s)' % (enc_tree(tree), j, m)])
+                call = lambda: pyg_base.df_reindex(tree, dec_join(proto.parse(j)), dec_method(m))
+            try:
+                res = call()
+            except Exception as e:
+                yield Finding('violation', case, '%s raised %s: %s' % (kind, type(e).__name__, str(e)[:120]))
+                continue
+            count += 1
+            if not passthrough_ok(tree, res):
+                yield Finding('violation', case, 'container structure changed or a non-timeseries member was not passed through unchanged')
+                continue
+            bad = check_members(leaves(tree), leaves(res), want, m, None)
+        else:
+            case = gen_presynck(rng)
+            sx = proto.parse(case['lines'][0])
+            case = dict(case, tag='law-presync')
+            pos, kw = dec_tree(sx[2]), dec_tree(sx[3])
+            if any(isinstance(x, np.ndarray) for x in leaves(pos) + leaves(kw)):
+                continue
+            try:
+                res = pyg_base.presync(_fv)(*pos, join=dec_join(sx[4]), method=dec_method(sx[5]), columns=False, **kw)
+            except Exception as e:
+                yield Finding('violation', case, 'the presync-decorated call raised %s: %s' % (type(e).__name__, str(e)[:120]))
+                continue
+            count += 1
+            if not (isinstance(res, tuple) and len(res) == 2 and passthrough_ok(pos, res[0]) and passthrough_ok(kw, res[1])):
+                yield Finding('violation', case, 'the function did not receive its arguments in their containers / non-timeseries unchanged')
+                continue
+            allin = flat(list(pos) + list(kw.values()))
+            if isinstance(sx[4], list):
+                want = [pd.Timestamp(W.dec_t(a)) for a in sx[4][1:]] if any(isinstance(x, (pd.Series, pd.DataFrame)) for x in allin) else None
+            else:
+                want = expected_index(allin, sx[4])
+            if want is None:
+                continue
+            bad = check_members(leaves(pos) + leaves(kw), leaves(res[0]) + leaves(res[1]), want, sx[5], None)
         if bad:
             yield Finding('violation', case, bad)
     # bare arrays: aligned at the end
